@@ -48,6 +48,26 @@ def compose_int(v, w, o):
     return call(f)
 
 
+PREFIXES = (bytes([0xff] * 5), bytes([0x00, 0x80, 0x7f, 0x00, 0x01]), b'\x80')
+
+
+def cursor_event(prim, label, make_parser, parse, wire):
+    """the same field behind other bytes (cursor > 0) and in front of other bytes: same value, same consumed length"""
+    from ..api import call as api_call
+    p0 = make_parser(bytes(wire))
+    o0 = api_call(lambda p: parse(p), p0)[0]
+    same = True
+    if o0 == 'ok':
+        for prefix in PREFIXES:
+            for suffix in (b'', b'\xff\x00\xff'):
+                p1 = make_parser(prefix + bytes(wire) + suffix)
+                p1.parse_raw('verif_prefix', len(prefix))
+                o1 = api_call(lambda p: parse(p), p1)[0]
+                if o1 != 'ok' or p1['v'] != p0['v'] or p1.parsed_length != len(prefix) + p0.parsed_length:
+                    same = False
+    return {'k': 'cursor', 'prim': prim, 'label': label, 'same': same, 'wire': list(wire[:64])}
+
+
 def int_events(rep, thorough):
     from cryptoparser.common.parse import ComposerBinary, ParserBinary
     rng = rep.rng
@@ -94,6 +114,8 @@ def int_events(rep, thorough):
                     out2, _ = call(lambda: p.parse_numeric('v', w))
                     ev.append({'k': 'pint', 'w': w, 'order': o, 'wire': wire, 'd': digits(p['v']) if out2 == 'ok' else [],
                                'out': out2, 'n': p.parsed_length})
+                    ev.append(cursor_event('numeric', '%s|%d|%d' % (o, w, v), lambda b, o=o: ParserBinary(b, byte_order=order_of(o)),
+                                           lambda p, w=w: p.parse_numeric('v', w), bytes(wire)))
             for v in (-1, -top, -255):
                 out, wire = compose_int(v, w, o)
                 ev.append({'k': 'cneg', 'w': w, 'order': o, 'out': out, 'v': str(v)})
@@ -214,6 +236,8 @@ def mpint_events(rep, thorough):
                     bneg, bmag = (not neg), [0]
             ev.append({'k': 'sshmpint', 'neg': neg, 'mag': digits(v), 'wire': list(wire), 'out': out,
                        'back_neg': bneg, 'back_mag': bmag})
+            if out == 'ok':
+                ev.append(cursor_event('ssh_mpint', str(x)[:40], ParserBinary, lambda p: p.parse_ssh_mpint('v'), wire))
             rep.case('sshmpint|%d' % x)
         # fixed-length form: exact length, longer field, too short field
         n0 = max(1, (v.bit_length() + 7) // 8)
@@ -229,6 +253,8 @@ def mpint_events(rep, thorough):
                 o2, _ = call(lambda: p.parse_mpint('v', n))
                 back = digits(p['v']) if o2 == 'ok' else [0, 0]
             ev.append({'k': 'mpint', 'mag': digits(v), 'n': n, 'wire': list(wire), 'out': out, 'back': back})
+            if out == 'ok' and len(wire) == n:
+                ev.append(cursor_event('mpint', '%s|%d' % (str(v)[:40], n), ParserBinary, lambda p, n=n: p.parse_mpint('v', n), wire))
             rep.case('mpint|%d|%d' % (v, n))
     return ev
 
@@ -253,10 +279,12 @@ def ts_events(rep, thorough):
             for secs in instants:
                 for w, ms, aware in ((8, False, True), (8, True, True), (4, False, True), (8, False, False), (8, True, False), (4, False, False)):
                     millis = (secs * 7) % 1000 if ms else 0
+                    # what is below the resolution of the field (milliseconds in a seconds field, microseconds) is cut off
+                    below = (0, 999, 1000, 999999)[(secs // 3) % 4] if ms is False else (0, 1, 999)[(secs // 3) % 3]
                     if aware:
-                        dt = datetime.datetime.fromtimestamp(secs, datetime.timezone.utc) + datetime.timedelta(milliseconds=millis)
+                        dt = datetime.datetime.fromtimestamp(secs, datetime.timezone.utc) + datetime.timedelta(milliseconds=millis, microseconds=below)
                     else:
-                        dt = datetime.datetime.utcfromtimestamp(secs) + datetime.timedelta(milliseconds=millis)
+                        dt = datetime.datetime.utcfromtimestamp(secs) + datetime.timedelta(milliseconds=millis, microseconds=below)
                     c = ComposerBinary()
                     out, _ = call(lambda: c.compose_timestamp(dt, ms, w))
                     wire = bytes(c.composed_bytes)
@@ -273,6 +301,9 @@ def ts_events(rep, thorough):
                     ev.append({'k': 'ts', 'tz': tz, 'forever': False, 'secs': digits(secs), 'millis': millis, 'w': w, 'ms': ms,
                                'aware': aware, 'wire': list(wire), 'out': out, 'back_secs': bsecs, 'back_millis': bmillis,
                                'back_forever': bforever})
+                    if out == 'ok' and len(wire) == w and tz == TZS[0]:
+                        ev.append(cursor_event('timestamp', '%d|%d|%s' % (secs, w, ms), ParserBinary,
+                                               lambda p, ms=ms, w=w: p.parse_timestamp('v', ms, w), wire))
                     rep.case('ts|%s|%d|%d|%s|%s' % (tz, secs, w, ms, aware))
             # the same instants as aware datetimes in fixed-offset zones, west and east of Greenwich, whole and fractional hours
             for secs in (instants[:34] if tz in TZS[:2] else instants[:6]):
@@ -299,18 +330,18 @@ def ts_events(rep, thorough):
                                    'aware': True, 'wire': list(wire), 'out': out, 'back_secs': bsecs, 'back_millis': bmillis,
                                    'back_forever': bforever})
                         rep.case('ts|%s|%d|%d|%s|off%d' % (tz, secs, w, ms, off))
-            for w in (4, 8):
+            for w, ms in ((4, False), (8, False), (4, True), (8, True)):
                 c = ComposerBinary()
-                out, _ = call(lambda: c.compose_timestamp(None, False, w))
+                out, _ = call(lambda: c.compose_timestamp(None, ms, w))
                 wire = bytes(c.composed_bytes)
                 p = ParserBinary(wire) if len(wire) == w else None
                 bforever = False
                 if p is not None:
-                    call(lambda: p.parse_timestamp('t', False, w))
+                    call(lambda: p.parse_timestamp('t', ms, w))
                     bforever = p['t'] is None if 't' in p else False
-                ev.append({'k': 'ts', 'tz': tz, 'forever': True, 'secs': [], 'millis': 0, 'w': w, 'ms': False, 'aware': True,
+                ev.append({'k': 'ts', 'tz': tz, 'forever': True, 'secs': [], 'millis': 0, 'w': w, 'ms': ms, 'aware': True,
                            'wire': list(wire), 'out': out, 'back_secs': [], 'back_millis': 0, 'back_forever': bforever})
-                rep.case('ts|%s|forever|%d' % (tz, w))
+                rep.case('ts|%s|forever|%d|%s' % (tz, w, ms))
     finally:
         if saved is None:
             os.environ.pop('TZ', None)
@@ -354,6 +385,8 @@ def run(rep):
             site = 'w=%d|order=%s' % (e['w'], e['order'])
         elif kind == 'flags':
             site = e['enum']
+        elif kind == 'cursor':
+            site = e['prim']
         elif kind == 'mflags':
             site = '%s|%s' % (e['enum'], e['toggled'])
         else:
